@@ -214,14 +214,10 @@ class PiecewiseConstantBirthDeath(Distribution):
         )
 
     def p0(self, A, B, t, t_i):
-        term = torch.exp(A * (t - t_i)) * (1.0 + B)
-        one_minus_Bi = 1.0 - B
-        return (
-            self.lambda_
-            + self.mu
-            + self.psi
-            - A * (1.0 - 2.0 * one_minus_Bi / (term + one_minus_Bi))
-        ) / (2.0 * self.lambda_)
+        # in terms of e^{-A(t - t_i)}: no overflow when A (t - t_i) is large
+        e = torch.exp(-A * (t - t_i))
+        ratio = ((1.0 + B) - e * (1.0 - B)) / ((1.0 + B) + e * (1.0 - B))
+        return (self.lambda_ + self.mu + self.psi - A * ratio) / (2.0 * self.lambda_)
 
     def log_p(self, t, t_i, rho):
         """Probability density of lineage alive between time t and t_i has no
@@ -235,7 +231,8 @@ class PiecewiseConstantBirthDeath(Distribution):
         )
         B = torch.zeros_like(self.mu, dtype=self.mu.dtype)
         p = torch.ones(self.mu.shape[:-1] + (m + 1,), dtype=self.mu.dtype)
-        exp_A_term = torch.exp(A * (t - t_i))
+        # e^{-A(t - t_i)}: no overflow when A (t - t_i) is large
+        exp_A_term = torch.exp(-A * (t - t_i))
         inv_2lambda = 1.0 / (2.0 * self.lambda_)
 
         for i in torch.arange(m - 1, -1, step=-1):
@@ -245,11 +242,11 @@ class PiecewiseConstantBirthDeath(Distribution):
                 + self.mu[..., i]
                 + self.psi[..., i]
             ) / A[..., i]
-            term = exp_A_term[..., i] * (1.0 + B[..., i])
-            one_minus_Bi = 1.0 - B[..., i]
+            one_plus_Bi = 1.0 + B[..., i]
+            term = exp_A_term[..., i] * (1.0 - B[..., i])
             p[..., i] *= (
                 sum_term[..., i]
-                - A[..., i] * (1.0 - 2.0 * one_minus_Bi / (term + one_minus_Bi))
+                - A[..., i] * (one_plus_Bi - term) / (one_plus_Bi + term)
             ) * inv_2lambda[..., i]
         return p, A, B
 
